@@ -9,6 +9,8 @@ import (
 	"google.golang.org/grpc"
 	"google.golang.org/grpc/metadata"
 	"google.golang.org/protobuf/proto"
+
+	"github.com/smart-core-os/sc-golang/internal/simhook"
 )
 
 // ClientServerStream combines both a grpc.ServerStream and grpc.ClientStream
@@ -38,6 +40,7 @@ func NewClientServerStream(ctx context.Context) *ClientServerStream {
 }
 
 func (s *ClientServerStream) Close(err error) {
+	simhook.Yield("wrap.close")
 	// like gRPC, deliver metadata given to SetHeader together with the status if the handler never sent anything
 	s.headerM.Lock()
 	select {
@@ -47,9 +50,12 @@ func (s *ClientServerStream) Close(err error) {
 	}
 	s.headerM.Unlock()
 
+	simhook.Yield("wrap.close.status")
 	s.closeErr = err
 	close(s.serverSend)
+	simhook.Yield("wrap.close.cancel")
 	s.closed()
+	simhook.Yield("wrap.close.done")
 }
 
 // safe to call if s.serverSend is closed
@@ -73,6 +79,7 @@ type clientStream struct {
 }
 
 func (c *clientStream) Header() (metadata.MD, error) {
+	simhook.Yield("wrap.client.header")
 	select {
 	case <-c.ctx.Done():
 		select {
@@ -104,6 +111,7 @@ func (c *clientStream) Context() context.Context {
 func (c *clientStream) SendMsg(m any) error {
 	// the receiver reads the message after this call has returned, when the caller may already be changing it
 	m = proto.Clone(m.(proto.Message))
+	simhook.Yield("wrap.client.send")
 	select {
 	case <-c.ctx.Done():
 		return c.closeErrLocked()
@@ -113,6 +121,7 @@ func (c *clientStream) SendMsg(m any) error {
 }
 
 func (c *clientStream) RecvMsg(m any) error {
+	simhook.Yield("wrap.client.recv")
 	select {
 	case <-c.Context().Done():
 		// closeErr may or may not be available depending on why the context has ended
@@ -144,6 +153,7 @@ func (s *serverStream) SetHeader(md metadata.MD) error {
 }
 
 func (s *serverStream) SendHeader(md metadata.MD) error {
+	simhook.Yield("wrap.server.sendheader")
 	s.headerM.Lock()
 	defer s.headerM.Unlock()
 
@@ -169,6 +179,7 @@ func (s *serverStream) SendMsg(m any) error {
 	s.sendHeaderIfNeeded()
 	// the receiver reads the message after this call has returned, when the caller may already be changing it
 	m = proto.Clone(m.(proto.Message))
+	simhook.Yield("wrap.server.send")
 	select {
 	case <-s.ctx.Done():
 		return s.closeErrLocked()
@@ -178,6 +189,7 @@ func (s *serverStream) SendMsg(m any) error {
 }
 
 func (s *serverStream) RecvMsg(m any) error {
+	simhook.Yield("wrap.server.recv")
 	select {
 	case <-s.Context().Done():
 		return s.closeErrLocked()
